@@ -1342,6 +1342,18 @@ class Folder:
                 if isinstance(v, list) and not isinstance(v, PySeq):
                     return _permute(v, perm_)
                 raise Unfoldable("permute of a non-tensor")
+            if m == "index_select" and len(node.args) == 2 and not node.keywords and not isinstance(self._peek(node.func.value), PySeq):
+                v = self.fold(node.func.value)
+                d = self.fold(node.args[0])
+                ix = self.fold(node.args[1])
+                if isinstance(v, list) and isinstance(d, int) and not isinstance(d, bool) and isinstance(ix, list) and all(isinstance(i_, int) and not isinstance(i_, bool) for i_ in ix):
+                    def _sel(f_):
+                        if any(not (0 <= i_ < len(f_)) for i_ in ix):
+                            raise Unfoldable("index_select out of range")
+                        return [f_[i_] for i_ in ix]
+
+                    return _map_fibres(v, d, _sel)
+                raise Unfoldable("index_select with a non-literal index")
             if m in ("cumsum", "cumprod") and not isinstance(self._peek(node.func.value), PySeq) and (len(node.args) == 1 or (not node.args and len(node.keywords) == 1 and node.keywords[0].arg == "dim")):
                 v = self.fold(node.func.value)
                 d = self.fold(node.args[0] if node.args else node.keywords[0].value)
@@ -1541,6 +1553,8 @@ class Folder:
                         return isinstance(v, list) and not isinstance(v, PySeq)
                     return isinstance(v, table[tn])
                 raise Unfoldable(f"isinstance against {tn}")
+            if short == "index_select" and nm.startswith("torch.") and len(node.args) == 3 and not node.keywords:
+                return self.fold(ast.copy_location(ast.Call(func=ast.copy_location(ast.Attribute(value=node.args[0], attr=short, ctx=ast.Load()), node), args=list(node.args[1:]), keywords=[]), node))
             if short in ("cumsum", "cumprod") and nm.startswith("torch.") and node.args and (len(node.args) == 2 or (len(node.args) == 1 and len(node.keywords) == 1 and node.keywords[0].arg == "dim")):
                 # torch.cumsum(x, dim) is x.cumsum(dim)
                 return self.fold(ast.copy_location(ast.Call(func=ast.copy_location(ast.Attribute(value=node.args[0], attr=short, ctx=ast.Load()), node), args=list(node.args[1:]), keywords=list(node.keywords)), node))
